@@ -884,10 +884,19 @@ class _ThreadSafeIterator(Iterator[_ValueT]):
   def __init__(self, iterable: Iterable[_ValueT]):
     self._iterator = iter(iterable)
     self._lock = threading.Lock()
+    self._exhausted = False
 
   def __next__(self):
     with self._lock:
-      return next(self._iterator)
+      if self._exhausted:
+        raise StopIteration()
+      try:
+        return next(self._iterator)
+      except StopIteration:
+        # Only one of the threads sharing the iterator relays its return
+        # values, a queue raises them again at every call.
+        self._exhausted = True
+        raise
 
   def __iter__(self):
     return self
